@@ -1,6 +1,7 @@
 """MRO-bound mock objects: a Python class whose methods are the *source* definitions found through a repository
 class's MRO, interpreted by minieval on demand (super() included).  The checker builds the instance state by hand
-and then calls methods on it; everything a method reaches through `self` is folded from source as well."""
+and then calls methods on it; everything a method reaches through `self` is folded from source as well.  Methods
+the repository inherits from outside (collections.abc mixins) come from the real Python `base` classes."""
 from __future__ import annotations
 
 import ast
@@ -14,8 +15,14 @@ SKIP = {'__new__', '__init_subclass__', '__class_getitem__', '__slots__', '__ini
 PROPS = ('property', 'lazy.prop', 'cached_property', 'abstractproperty')
 
 
-def bound_class(m: Model, it: Interp, cls: ClassRef, base=object, only=None, consulted: set | None = None, extra_ns=None):
+def bound_class(m: Model, it: Interp, cls: ClassRef, base=object, only=None, consulted: set | None = None, extra_ns=None,
+                with_init=False, with_eq=False):
     """Returns a Python class (subclass of `base`) carrying one wrapper per function reachable through cls's MRO."""
+    skip = set(SKIP)
+    if with_init:
+        skip.discard('__init__')
+    if with_eq:
+        skip -= {'__eq__', '__hash__'}
     names = {}
     for c in m.mro(cls):
         try:
@@ -23,21 +30,30 @@ def bound_class(m: Model, it: Interp, cls: ClassRef, base=object, only=None, con
         except Exception:
             continue
         for n in ns:
-            if n in names or n in SKIP or (only is not None and n not in only):
+            if n in names or n in skip or (only is not None and n not in only):
                 continue
-            v = m.force(ns[n]) if hasattr(m, 'force') else ns[n]
+            try:
+                v = m.force(ns[n])
+            except Exception:
+                continue
             if isinstance(v, FuncRef):
                 names[n] = v
+    bases = base if isinstance(base, tuple) else (base,)
+    holder = {}
 
     def invoke(self_, name, args, kw, after=None):
         fn, owner = m.method(cls, name, after)
         if not isinstance(fn, FuncRef):
+            # inherited from outside the repository: the real base class's implementation
+            for b in bases:
+                if hasattr(b, name):
+                    return getattr(b, name)(self_, *args, **kw)
             raise Raised(f'AttributeError {name}')
         if consulted is not None:
             consulted.add(m.floc(fn) + f' {fn.qualname}')
 
         class Sup:
-            def __getattr__(s_, n):
+            def __getattribute__(s_, n):
                 return lambda *a, **k: invoke(self_, n, list(a), k, after=owner)
         old = it.g.get('super')
         it.g['super'] = lambda *a: Sup()
@@ -45,7 +61,7 @@ def bound_class(m: Model, it: Interp, cls: ClassRef, base=object, only=None, con
             return it.call(fn.node, [self_, *args], kw)
         finally:
             it.g['super'] = old
-    ns = dict(extra_ns or {})
+    ns = {}
     for n, fref in names.items():
         decos = [ast.unparse(d) for d in fref.node.decorator_list]
         if any(d.split('(')[0] in PROPS or d.endswith('.setter') for d in decos):
@@ -57,6 +73,23 @@ def bound_class(m: Model, it: Interp, cls: ClassRef, base=object, only=None, con
         elif 'classmethod' in decos:
             continue
         else:
-            ns[n] = (lambda n: (lambda s_, *a, **k: invoke(s_, n, list(a), k)))(n)
+            isgen = any(isinstance(x, (ast.Yield, ast.YieldFrom)) for x in ast.walk(fref.node))
+            if isgen:
+                def gen(s_, *a, n=n, **k):
+                    saved, it.yields = it.yields, []
+                    try:
+                        invoke(s_, n, list(a), k)
+                        return iter(list(it.yields))
+                    finally:
+                        it.yields = saved
+                ns[n] = gen
+            else:
+                ns[n] = (lambda n: (lambda s_, *a, **k: invoke(s_, n, list(a), k)))(n)
+    ns.update(extra_ns or {})
     ns['_invoke'] = invoke
-    return type(f'Bound_{cls.qualname.replace(".", "_")}', (base,), ns)
+    ns['__bound_methods__'] = tuple(sorted(names))
+    if with_eq and '__eq__' in ns and '__hash__' not in ns:
+        ns['__hash__'] = None
+    C = type(f'Bound_{cls.qualname.replace(".", "_")}', bases, ns)
+    holder['cls'] = C
+    return C
